@@ -26,12 +26,38 @@ if TYPE_CHECKING:
     from _griffe.models import Class, Module
 
 
-def _yield(element: str | Expr | tuple[str | Expr, ...], *, flat: bool = True) -> Iterator[str | Expr]:
+# Operator precedences, lowest first (same order as in Python's grammar and `ast.unparse`).
+_PRECEDENCE = dict(zip(("yield", "test", "or", "and", "not ", "compare", "|", "^", "&", "<<", "+", "*", "unary", "**", "atom"), range(1, 16)))
+_PRECEDENCE.update({">>": _PRECEDENCE["<<"], "-": _PRECEDENCE["+"], **dict.fromkeys(("/", "//", "%", "@"), _PRECEDENCE["*"])})
+_TEST = _PRECEDENCE["test"]
+_ATOM = _PRECEDENCE["atom"]
+
+
+def _precedence(element: str | Expr) -> int:
+    if isinstance(element, ExprUnaryOp):
+        return _PRECEDENCE["not " if element.operator == "not " else "unary"]
+    if isinstance(element, (ExprBinOp, ExprBoolOp)):
+        return _PRECEDENCE[element.operator]
+    if isinstance(element, ExprCompare):
+        return _PRECEDENCE["compare"]
+    if isinstance(element, (ExprIfExp, ExprLambda)):
+        return _TEST
+    if isinstance(element, (ExprYield, ExprYieldFrom)):
+        return _PRECEDENCE["yield"]
+    return _ATOM
+
+
+def _yield(element: str | Expr | tuple[str | Expr, ...], *, flat: bool = True, outer: int = _TEST) -> Iterator[str | Expr]:
+    # Operands that bind less tightly than the `outer` precedence they are used at must be parenthesized.
     if isinstance(element, str):
         yield element
     elif isinstance(element, tuple):
         for elem in element:
-            yield from _yield(elem, flat=flat)
+            yield from _yield(elem, flat=flat, outer=outer)
+    elif _precedence(element) < outer:
+        yield "("
+        yield from _yield(element, flat=flat, outer=0)
+        yield ")"
     elif flat:
         yield from element.iterate(flat=True)
     else:
@@ -43,15 +69,16 @@ def _join(
     joint: str | Expr,
     *,
     flat: bool = True,
+    outer: int = _TEST,
 ) -> Iterator[str | Expr]:
     it = iter(elements)
     try:
-        yield from _yield(next(it), flat=flat)
+        yield from _yield(next(it), flat=flat, outer=outer)
     except StopIteration:
         return
     for element in it:
         yield from _yield(joint, flat=flat)
-        yield from _yield(element, flat=flat)
+        yield from _yield(element, flat=flat, outer=outer)
 
 
 def _field_as_dict(
@@ -184,7 +211,7 @@ class ExprAttribute(Expr):
     """The different parts of the dotted chain."""
 
     def iterate(self, *, flat: bool = True) -> Iterator[str | Expr]:
-        yield from _join(self.values, ".", flat=flat)
+        yield from _join(self.values, ".", flat=flat, outer=_ATOM)
 
     def append(self, value: ExprName) -> None:
         """Append a name to this attribute.
@@ -232,9 +259,11 @@ class ExprBinOp(Expr):
     """Right part."""
 
     def iterate(self, *, flat: bool = True) -> Iterator[str | Expr]:
-        yield from _yield(self.left, flat=flat)
+        precedence = _PRECEDENCE[self.operator]
+        right_associative = self.operator == "**"
+        yield from _yield(self.left, flat=flat, outer=precedence + right_associative)
         yield f" {self.operator} "
-        yield from _yield(self.right, flat=flat)
+        yield from _yield(self.right, flat=flat, outer=precedence + (not right_associative))
 
 
 # YORE: EOL 3.9: Replace `**_dataclass_opts` with `slots=True` within line.
@@ -248,7 +277,7 @@ class ExprBoolOp(Expr):
     """Operands."""
 
     def iterate(self, *, flat: bool = True) -> Iterator[str | Expr]:
-        yield from _join(self.values, f" {self.operator} ", flat=flat)
+        yield from _join(self.values, f" {self.operator} ", flat=flat, outer=_PRECEDENCE[self.operator] + 1)
 
 
 # YORE: EOL 3.9: Replace `**_dataclass_opts` with `slots=True` within line.
@@ -269,7 +298,7 @@ class ExprCall(Expr):
         return self.function.canonical_path
 
     def iterate(self, *, flat: bool = True) -> Iterator[str | Expr]:
-        yield from _yield(self.function, flat=flat)
+        yield from _yield(self.function, flat=flat, outer=_ATOM)
         yield "("
         yield from _join(self.arguments, ", ", flat=flat)
         yield ")"
@@ -288,9 +317,10 @@ class ExprCompare(Expr):
     """Things compared."""
 
     def iterate(self, *, flat: bool = True) -> Iterator[str | Expr]:
-        yield from _yield(self.left, flat=flat)
+        outer = _PRECEDENCE["compare"] + 1
+        yield from _yield(self.left, flat=flat, outer=outer)
         yield " "
-        yield from _join(zip_longest(self.operators, [], self.comparators, fillvalue=" "), " ", flat=flat)
+        yield from _join(zip_longest(self.operators, [], self.comparators, fillvalue=" "), " ", flat=flat, outer=outer)
 
 
 # YORE: EOL 3.9: Replace `**_dataclass_opts` with `slots=True` within line.
@@ -313,10 +343,10 @@ class ExprComprehension(Expr):
         yield "for "
         yield from _yield(self.target, flat=flat)
         yield " in "
-        yield from _yield(self.iterable, flat=flat)
+        yield from _yield(self.iterable, flat=flat, outer=_TEST + 1)
         if self.conditions:
             yield " if "
-            yield from _join(self.conditions, " if ", flat=flat)
+            yield from _join(self.conditions, " if ", flat=flat, outer=_TEST + 1)
 
 
 # TODO: `ExprConstant` is never instantiated,
@@ -347,11 +377,14 @@ class ExprDict(Expr):
 
     def iterate(self, *, flat: bool = True) -> Iterator[str | Expr]:
         yield "{"
-        yield from _join(
-            (("**", value) if key is None else (key, ": ", value) for key, value in zip(self.keys, self.values)),
-            ", ",
-            flat=flat,
-        )
+        for index, (key, value) in enumerate(zip(self.keys, self.values)):
+            if index:
+                yield ", "
+            if key is None:
+                yield "**"
+                yield from _yield(value, flat=flat, outer=_PRECEDENCE["|"])
+            else:
+                yield from _yield((key, ": ", value), flat=flat)
         yield "}"
 
 
@@ -438,9 +471,9 @@ class ExprIfExp(Expr):
     """Other expression."""
 
     def iterate(self, *, flat: bool = True) -> Iterator[str | Expr]:
-        yield from _yield(self.body, flat=flat)
+        yield from _yield(self.body, flat=flat, outer=_TEST + 1)
         yield " if "
-        yield from _yield(self.test, flat=flat)
+        yield from _yield(self.test, flat=flat, outer=_TEST + 1)
         yield " else "
         yield from _yield(self.orelse, flat=flat)
 
@@ -510,7 +543,7 @@ class ExprVarPositional(Expr):
 
     def iterate(self, *, flat: bool = True) -> Iterator[str | Expr]:
         yield "*"
-        yield from _yield(self.value, flat=flat)
+        yield from _yield(self.value, flat=flat, outer=_PRECEDENCE["|"])
 
 
 # YORE: EOL 3.9: Replace `**_dataclass_opts` with `slots=True` within line.
@@ -785,7 +818,7 @@ class ExprSubscript(Expr):
     """Slice part."""
 
     def iterate(self, *, flat: bool = True) -> Iterator[str | Expr]:
-        yield from _yield(self.left, flat=flat)
+        yield from _yield(self.left, flat=flat, outer=_ATOM)
         yield "["
         yield from _yield(self.slice, flat=flat)
         yield "]"
@@ -837,7 +870,7 @@ class ExprUnaryOp(Expr):
 
     def iterate(self, *, flat: bool = True) -> Iterator[str | Expr]:
         yield self.operator
-        yield from _yield(self.value, flat=flat)
+        yield from _yield(self.value, flat=flat, outer=_precedence(self))
 
 
 # YORE: EOL 3.9: Replace `**_dataclass_opts` with `slots=True` within line.
